@@ -389,6 +389,7 @@ impl Check for FaultEnumeration {
                 }
             }
         }
+        obs.weight(instances as u64);
         obs.sample(serde_json::json!({"statements": c.statements.iter().map(|q| q.sql()).collect::<Vec<_>>(), "instances": instances, "nodes": c.cluster.nodes}));
         if let Some(m) = unknown {
             return Verdict::Fail(format!("{} unclassified (+{} known-class) wrong answers among {} fault instances; first:\n{}", n_unknown, n_known, instances, m));
